@@ -310,6 +310,46 @@ func runC08(c *Ctx) {
 		}
 		L.Check(n >= 3, "R-C08-ATOMIC", "Metrics.all", fmt.Sprintf("%d cell uses, all through sync/atomic", n), "fewer than three metric-cell uses found", 0)
 	})
+	c.Group("R-C08-ATOMIC", "64-bit alignment", func() {
+		// sync/atomic: on 32-bit platforms 64-bit atomic operands must be 64-bit aligned; only the
+		// first word of an allocated struct is guaranteed to be. Evaluated with the gc/386 size model.
+		sizes := types.SizesFor("gc", "386")
+		n := 0
+		for _, fn := range P.SrcFuncs {
+			if !isModuleFunc(fn) {
+				continue
+			}
+			for _, ci := range allCalls(fn) {
+				cn := calleeName(ci.Common())
+				if !strings.HasPrefix(cn, "atomic.") || !strings.HasSuffix(cn, "64") {
+					continue
+				}
+				fa, ok := ci.Common().Args[0].(*ssa.FieldAddr)
+				if !ok {
+					continue
+				}
+				pt, ok := fa.X.Type().Underlying().(*types.Pointer)
+				if !ok {
+					continue
+				}
+				st, ok := pt.Elem().Underlying().(*types.Struct)
+				if !ok {
+					continue
+				}
+				var fields []*types.Var
+				for i := 0; i < st.NumFields(); i++ {
+					fields = append(fields, st.Field(i))
+				}
+				off := sizes.Offsetsof(fields)[fa.Field]
+				n++
+				cons := "align:" + recvName(fa.X.Type()) + "." + fieldName(fa.X.Type(), fa.Field)
+				L.Check(off%8 == 0, "R-C08-ATOMIC", cons, fmt.Sprintf("offset %d on 386: 64-bit aligned", off), fmt.Sprintf("field is at offset %d in the gc/386 layout: 64-bit atomic operations on it panic on 32-bit platforms", off), ci.Pos())
+			}
+		}
+		if n == 0 {
+			L.Undecided("R-C08-ATOMIC", "64-bit alignment", "no 64-bit atomic on a struct field found", 0)
+		}
+	})
 	c.Group("R-C08-ATOMIC", "Cache.isClosed", func() {
 		ct := P.Named("ristretto", "Cache")
 		st := ct.Underlying().(*types.Struct)
@@ -785,19 +825,50 @@ func runC08(c *Ctx) {
 	})
 	c.Group("R-C08-RING", "pool.New", func() {
 		fn := P.Fn("ristretto", "", "newRingBuffer")
-		if len(fn.AnonFuncs) != 1 {
-			L.Undecided("R-C08-RING", "pool.New", "expected one closure in newRingBuffer", fn.Pos())
+		// the function stored in sync.Pool.New (closure, method value or plain function) must
+		// return what Push type-asserts: a *ringStripe
+		var nf *ssa.Function
+		eachInstr(fn, func(in ssa.Instruction) {
+			st, ok := in.(*ssa.Store)
+			if !ok {
+				return
+			}
+			fa, ok := st.Addr.(*ssa.FieldAddr)
+			if !ok || recvName(fa.X.Type()) != "Pool" || fieldName(fa.X.Type(), fa.Field) != "New" {
+				return
+			}
+			switch v := st.Val.(type) {
+			case *ssa.MakeClosure:
+				nf = v.Fn.(*ssa.Function)
+			case *ssa.Function:
+				nf = v
+			}
+		})
+		if nf == nil {
+			L.Undecided("R-C08-RING", "pool.New", "the function assigned to sync.Pool.New in newRingBuffer was not found", fn.Pos())
 			return
 		}
-		nf := fn.AnonFuncs[0]
-		tb := newTB(nf)
-		ok := false
-		for _, r := range returnsOf(nf) {
-			if Match("call[newRingStripe](_,_)", tb.T(returnValues(r)[0]), nil) {
-				ok = true
+		// bound-method wrappers forward to the method
+		if nf.Synthetic != "" {
+			for _, ci := range allCalls(nf) {
+				if sc := staticCallee(ci.Common()); sc != nil && sc.Blocks != nil && isModuleFunc(sc) {
+					nf = sc
+				}
 			}
 		}
-		L.Check(ok, "R-C08-RING", "pool.New", "pool.New returns a *ringStripe (the type Push asserts)", "pool.New does not return newRingStripe(...): Push's type assertion would panic", nf.Pos())
+		ok := len(returnsOf(nf)) > 0
+		for _, r := range returnsOf(nf) {
+			v := returnValues(r)[0]
+			mi, isMI := v.(*ssa.MakeInterface)
+			if !isMI || recvName(mi.X.Type()) != "ringStripe" {
+				ok = false
+				continue
+			}
+			if _, isPtr := mi.X.Type().(*types.Pointer); !isPtr {
+				ok = false
+			}
+		}
+		L.Check(ok, "R-C08-RING", "pool.New", "pool.New returns a *ringStripe (the type Push asserts)", "pool.New does not return a *ringStripe: Push's type assertion would panic", nf.Pos())
 	})
 
 	// ---- R-C08-CONFINED
